@@ -8,3 +8,20 @@ package utils
 //@ pure func isSp(c byte) bool = c == 0x20 || c == 0x09 || c == 0x0d || c == 0x0a
 //@ func IsSpace props C02,C01 mode bv
 //@   ensures result == isSp(c)
+
+// SkipNumber (the Go number scanner behind optdec's json.Number validation and the
+// non-amd64 ast decoder): memory-safe for every string and position (C05: never loads
+// src[len(src)]); a successful result lies inside the input; and the integer part obeys
+// the RFC 8259 rule that a leading zero is not followed by another digit (C02, C11).
+// (Full equivalence with the number grammar is proved for alg.IsValidNumber, not here.)
+//@ pure func isDg(c byte) bool = c >= 0x30 && c <= 0x39
+//@ pure func nStart(src string, pos int) int = ite(pos < len(src) && src[pos] == 0x2d, pos + 1, pos)
+//@ func SkipNumber props C02,C11,C19,C05
+//@   requires 0 <= pos && pos <= len(src)
+//@   ensures ret >= 0 ==> (pos < ret && ret <= len(src))
+//@   ensures ret >= 0 ==> !(nStart(src, pos) + 1 < ret && src[nStart(src, pos)] == 0x30 && isDg(src[nStart(src, pos) + 1]))
+//@   loop 0: invariant ptrhi(se) == ptrlo(se) + len(src) && ptrindex(ss) == ptrlo(se) + nStart(src, pos) && ptrindex(ss) <= ptrindex(sp) && ptrindex(sp) <= ptrhi(se) && ptrlo(se) + pos <= ptrindex(ss)
+//@   loop 0: invariant (!nextNeedDigit ==> ptrindex(sp) > ptrindex(ss)) && (ptrindex(sp) == ptrindex(ss) ==> nextNeedDigit)
+//@   loop 0: invariant ptrindex(sp) > ptrindex(ss) ==> isDg(src[nStart(src, pos)])
+//@   loop 0: invariant (ptrindex(sp) > ptrindex(ss) + 1 && src[nStart(src, pos)] == 0x30) ==> !isDg(src[nStart(src, pos) + 1])
+//@   loop 0: decreases ptrhi(se) - ptrindex(sp)
